@@ -8,8 +8,12 @@ Python ints/bools (fast path); anything depending on the input is a z3 term of t
 Fail-closed: anything unsupported raises EngineError (reported as exit 2 by the checks), never a pass.
 """
 import json
+import os
+import pickle
 import re
+import shutil
 import sys
+import tempfile
 import time
 
 import z3
@@ -204,6 +208,58 @@ def s_or(*xs):
     return simp(z3.Or(out)) if len(out) > 1 else out[0]
 
 
+class Acc:
+    """mergeable accumulator: ints add, lists extend, sets union, dicts merge recursively; keys starting with
+    'max_' take the maximum.  Every leaf process of a forked exploration fills its own and the root merges them."""
+
+    def __init__(self):
+        self.d = {}
+
+    def inc(self, k, n=1):
+        self.d[k] = self.d.get(k, 0) + n
+
+    def add(self, k, item):
+        self.d.setdefault(k, []).append(item)
+
+    def count(self, k, sub, n=1):
+        dd = self.d.setdefault(k, {})
+        dd[sub] = dd.get(sub, 0) + n
+
+    def maxi(self, k, v):
+        assert k.startswith('max_')
+        self.d[k] = max(self.d.get(k, v), v)
+
+    def setadd(self, k, items):
+        self.d.setdefault(k, set()).update(items)
+
+    def get(self, k, default=None):
+        return self.d.get(k, default)
+
+    def n(self, k):
+        v = self.d.get(k)
+        return len(v) if v is not None else 0
+
+    @staticmethod
+    def _merge(a, b):
+        for k, v in b.items():
+            if k not in a:
+                a[k] = v
+            elif isinstance(v, bool):
+                a[k] = a[k] or v
+            elif isinstance(v, (int, float)):
+                a[k] = max(a[k], v) if k.startswith('max_') else a[k] + v
+            elif isinstance(v, list):
+                a[k].extend(v)
+            elif isinstance(v, set):
+                a[k].update(v)
+            elif isinstance(v, dict):
+                Acc._merge(a[k], v)
+        return a
+
+    def merge(self, other_d):
+        Acc._merge(self.d, other_d)
+
+
 # ----------------------------------------------------------------------------- program
 class Program:
     """one mirdump export (one crate build = one configuration)"""
@@ -299,6 +355,11 @@ class Exec:
         self._select_cache = {}
         self._inb_cache = {}
         self.in_user_cb = 0
+        self.acc = Acc()
+        self.fork_mode = os.environ.get('VERIF_FORK', '0') == '1'
+        self._fork_dir = None
+        self._is_root = True
+        self.path_max_depth = 0
 
     # ---------------- solver
     def check(self, cond):
@@ -387,14 +448,38 @@ class Exec:
         feas = [i for i in live if self.check(conds[i])]
         if not feas:
             raise Infeasible()
-        for alt in feas[1:]:
-            self.pending.append(self.decisions[:] + [alt])
-        self.decisions.append(feas[0])
+        chosen = feas[0]
+        if self.fork_mode:
+            chosen = self._fork_alternatives(feas)
+        else:
+            for alt in feas[1:]:
+                self.pending.append(self.decisions[:] + [alt])
+        self.decisions.append(chosen)
         self.dpos += 1
-        self.solver.add(conds[feas[0]])
-        self.pc.append(conds[feas[0]])
-        self._descend(feas[0])
-        return feas[0]
+        self.solver.add(conds[chosen])
+        self.pc.append(conds[chosen])
+        self._descend(chosen)
+        return chosen
+
+    def _fork_alternatives(self, alts):
+        """depth-first exploration by process snapshots: a child is forked for every alternative but the first and
+        runs its whole subtree while this process waits (so at most one process per pending decision is alive);
+        returns the alternative this process continues with"""
+        for alt in alts[1:]:
+            sys.stdout.flush()
+            pid = os.fork()
+            if pid == 0:
+                self._is_root = False
+                self.acc = Acc()
+                self.stats = {k: (0 if isinstance(v, int) else 0.0) for k, v in self.stats.items()}
+                self.fn_seen = set()
+                self.builtins_used = set()
+                return alt
+            _, status = os.waitpid(pid, 0)
+            if status != 0:
+                # the child (or one of its descendants) failed: propagate as engine error
+                self._child_failed = True
+        return alts[0]
 
     def _descend(self, i):
         ch = self.node[1]
@@ -440,15 +525,19 @@ class Exec:
         if not vals:
             raise Infeasible()
         vals.sort()
-        for alt in vals[1:]:
-            self.pending.append(self.decisions[:] + [alt])
-        self.decisions.append(vals[0])
+        chosen = vals[0]
+        if self.fork_mode:
+            chosen = self._fork_alternatives(vals)
+        else:
+            for alt in vals[1:]:
+                self.pending.append(self.decisions[:] + [alt])
+        self.decisions.append(chosen)
         self.dpos += 1
-        c = v == bvv(vals[0], v.size())
+        c = v == bvv(chosen, v.size())
         self.solver.add(c)
         self.pc.append(c)
-        self._descend(('v', vals[0]))
-        return vals[0]
+        self._descend(('v', chosen))
+        return chosen
 
     # ---------------- source memory
     def byte_at(self, off):
@@ -1301,8 +1390,107 @@ class Exec:
         ln = self.len if ln is None else ln
         return SrcSlice(0, ln, ln)
 
+    def _run_one_path(self, body, on_leaf):
+        try:
+            out = body(self)
+            leaf = ('ok', out)
+        except Panic as e:
+            leaf = ('panic', e.msg)
+        except Violation as e:
+            leaf = ('violation', (e.kind, e.msg, self.model_for(True)))
+        except Infeasible:
+            leaf = None
+            self.stats['infeasible'] += 1
+        if leaf is not None and on_leaf:
+            on_leaf(self, leaf)
+        return leaf
+
+    def sample_this_leaf(self, every=48):
+        """deterministic thinning of per-leaf samples (each leaf process has its own accumulator)"""
+        if not self.fork_mode:
+            return True
+        h = 0
+        for d in self.decisions:
+            h = (h * 1000003 + (d if isinstance(d, int) else hash(d))) & 0xffffffff
+        return h % every == 0
+
+    def explore_forked(self, body, on_leaf=None):
+        """every feasible path runs in its own process (fork at each decision), results are merged through files"""
+        import gc
+        base_tmp = os.environ.get('VERIF_FORK_TMP') or os.path.join(os.path.dirname(os.path.dirname(os.path.abspath(__file__))), '.work', 'forktmp')
+        os.makedirs(base_tmp, exist_ok=True)
+        self._fork_dir = tempfile.mkdtemp(prefix='fork-', dir=base_tmp)
+        self._is_root = True
+        self._child_failed = False
+        root_pid = os.getpid()
+        self.decisions = []
+        self.dpos = 0
+        self.pc = []
+        self.events = []
+        self.path_steps = 0
+        self.depth = 0
+        self.stack = []
+        self.path_max_depth = 0
+        self.in_user_cb = 0
+        self.node = self.root = ([], {})
+        self.qidx = 0
+        self.solver.push()
+        self.solver.add(self.base)
+        gc.collect()
+        gc.freeze()
+        err = None
+        try:
+            self._run_one_path(body, on_leaf)
+            self.stats['paths'] += 1
+            self.stats['steps'] += self.path_steps
+        except BaseException as e:      # noqa: in a child everything must end in _exit
+            err = e
+        if os.getpid() != root_pid:
+            # leaf process: hand the results to the root and disappear
+            code = 0
+            try:
+                rec = {'acc': self.acc.d, 'stats': self.stats, 'fns': self.fn_seen, 'builtins': self.builtins_used,
+                       'error': (type(err).__name__ + ': ' + str(err)) if err is not None else None}
+                with open(os.path.join(self._fork_dir, f'{os.getpid()}-{time.time_ns()}.pkl'), 'wb') as f:
+                    pickle.dump(rec, f)
+                if err is not None or self._child_failed:
+                    code = 3
+            except BaseException:      # noqa
+                code = 4
+            os._exit(code)
+        # root: merge
+        gc.unfreeze()
+        self.solver.pop()
+        errors = []
+        try:
+            for fn in os.listdir(self._fork_dir):
+                with open(os.path.join(self._fork_dir, fn), 'rb') as f:
+                    rec = pickle.load(f)
+                self.acc.merge(rec['acc'])
+                for k, v in rec['stats'].items():
+                    if k.startswith('max_'):
+                        self.stats[k] = max(self.stats.get(k, 0), v)
+                    else:
+                        self.stats[k] = self.stats.get(k, 0) + v
+                self.fn_seen.update(rec['fns'])
+                self.builtins_used.update(rec['builtins'])
+                if rec['error']:
+                    errors.append(rec['error'])
+        finally:
+            shutil.rmtree(self._fork_dir, ignore_errors=True)
+        if err is not None:
+            raise err
+        if errors:
+            raise EngineError('in a forked path: ' + errors[0])
+        if self._child_failed:
+            raise EngineError('a forked path process died without a result')
+        return None
+
     def explore(self, body, on_leaf=None):
-        """run body(ex) along every feasible path. Returns list of (kind, payload)."""
+        """run body(ex) along every feasible path. Returns list of (kind, payload) (None in fork mode:
+        results are gathered in self.acc by on_leaf)."""
+        if self.fork_mode:
+            return self.explore_forked(body, on_leaf)
         self.pending = [[]]
         leaves = []
         self.root = ([], {})
